@@ -17,8 +17,10 @@ import (
 	"time"
 
 	"github.com/goatcms/goatcore/app"
+	"github.com/goatcms/goatcore/app/gio"
 	"github.com/goatcms/goatcore/app/scope"
 	"github.com/goatcms/goatcore/app/scope/contextscope"
+	"github.com/goatcms/goatcore/filesystem/filespace/memfs"
 )
 
 type idErr int
@@ -61,6 +63,15 @@ type sop struct {
 	Lid  int    `json:"lid,omitempty"`
 	Fail int    `json:"fail,omitempty"` // -1: listener never fails
 	Es   []int  `json:"es,omitempty"`   // -1: nil error
+	Via  int    `json:"via,omitempty"`  // newchild: 1 = through gio.NewChildIOContext (closed through IOContext.Close)
+	N    int    `json:"n,omitempty"`    // add: AddTasks(N) (0 and 1: AddTasks(1)); emitted to Coq as N single additions
+}
+
+func (p sop) delta() int {
+	if p.K == "add" && p.N > 1 {
+		return p.N
+	}
+	return 1
 }
 
 func coqOptErr(n int) string {
@@ -86,7 +97,9 @@ func (p sop) coq() string {
 	case "on":
 		return fmt.Sprintf("HOp (OOn %s %s %s %s)", s, coqEvents[p.Ev], coqNat(p.Lid), coqOptErr(p.Fail))
 	case "add":
-		return "HOp (OAddTasks " + s + ")"
+		// AddTasks(n) is one test of the done flag and one addition: the same as n accepted (or n
+		// refused) single additions with nothing in between
+		return strings.TrimSuffix(strings.Repeat("HOp (OAddTasks "+s+"); ", p.delta()), "; ")
 	case "done":
 		return "HOp (ODoneTask " + s + ")"
 	case "apperr", "capp":
@@ -168,6 +181,32 @@ type world struct {
 	hang       bool
 	quiet      bool
 	nextLid    int
+	unsure     bool                  // a DoneTask without a task of its own was accepted (misuse stream)
+	iocs       map[int]app.IOContext // scopes owned by a gio.IOContext (sop.Via == 1 children and their parents)
+}
+
+var scopeHarnessIO app.IO // one inert IO for every IOContext of the scope harnesses
+
+func scopeIO() app.IO {
+	if scopeHarnessIO == nil {
+		cwd, err := memfs.NewFilespace()
+		must(err)
+		scopeHarnessIO = gio.NewIO(gio.IOParams{In: gio.NewInput(strings.NewReader("")), Out: gio.NewNilOutput(), Err: gio.NewNilOutput(), CWD: cwd})
+	}
+	return scopeHarnessIO
+}
+
+// ioCtx returns the IOContext standing for scope s (made on first use for a scope created directly).
+func (w *world) ioCtx(s int) app.IOContext {
+	if w.iocs == nil {
+		w.iocs = map[int]app.IOContext{}
+	}
+	if c, ok := w.iocs[s]; ok {
+		return c
+	}
+	c := gio.NewIOContext(w.scopes[s], scopeIO())
+	w.iocs[s] = c
+	return c
 }
 
 func newWorld(sequential bool) *world {
@@ -265,7 +304,7 @@ func (w *world) settle() {
 		for _, c := range w.closers {
 			if atomic.LoadInt32(&c.status) == 1 {
 				running++
-				if !c.first || w.outstanding(c.scope) <= 0 {
+				if !c.first || (!w.unsure && w.outstanding(c.scope) <= 0) {
 					ok = false
 				}
 			}
@@ -380,24 +419,38 @@ func (w *world) apply(p sop) (out []string) {
 		if !par.IsDone() {
 			reg = p.S
 		}
+		mk := func(cp scope.ChildParams) app.Scope {
+			if p.Via != 1 {
+				return scope.NewChild(par, cp)
+			}
+			ioc := gio.NewChildIOContext(w.ioCtx(p.S), gio.ChildIOContextParams{Scope: cp})
+			w.iocs[len(w.scopes)] = ioc
+			return ioc.Scope()
+		}
 		if p.Iso {
 			iso := contextscope.NewIsolated(par)
 			c := w.addCtx(iso, w.scopeCtx[p.S])
-			w.addScope(scope.NewChild(par, scope.ChildParams{ContextScope: iso}), c, p.S, reg)
+			w.addScope(mk(scope.ChildParams{ContextScope: iso}), c, p.S, reg)
 		} else {
-			w.addScope(scope.NewChild(par, scope.ChildParams{}), w.scopeCtx[p.S], p.S, reg)
+			w.addScope(mk(scope.ChildParams{}), w.scopeCtx[p.S], p.S, reg)
 		}
 	case "on":
 		w.scopes[p.S].On(goEvents[p.Ev], w.listener(p.Ev, p.Lid, p.Fail))
 	case "add":
-		err := w.scopes[p.S].AddTasks(1)
+		err := w.scopes[p.S].AddTasks(p.delta())
 		if err == nil {
-			w.tasks[p.S]++
+			w.tasks[p.S] += p.delta()
 		}
 		return []string{"SAdd " + coqBool(err == nil)}
 	case "done":
-		w.scopes[p.S].DoneTask()
+		stolen := w.tasks[p.S] <= 0 // misuse: none of the tasks accepted here is outstanding
+		w.scopes[p.S].DoneTask()    // panics when the counter is zero
 		w.tasks[p.S]--
+		if stolen {
+			// it did not panic: it used up a child's registration; from here on the bookkeeping does not
+			// know the counter (the model does), so nothing is derived from it any more
+			w.unsure = true
+		}
 	case "apperr":
 		w.lastFiring = p.S
 		w.scopes[p.S].AppendError(toErrs(p.Es)...)
@@ -459,6 +512,10 @@ func (w *world) startClose(s int) *closerRec {
 	w.closers = append(w.closers, c)
 	atomic.AddInt32(&w.alive, 1)
 	sc := w.scopes[s]
+	closeFn := sc.Close
+	if ioc, ok := w.iocs[s]; ok {
+		closeFn = ioc.Close // the scope belongs to an IOContext: closed the way its owner closes it
+	}
 	go func() {
 		defer atomic.AddInt32(&w.alive, -1)
 		defer func() {
@@ -466,7 +523,7 @@ func (w *world) startClose(s int) *closerRec {
 				atomic.StoreInt32(&c.status, 4)
 			}
 		}()
-		err := sc.Close()
+		err := closeFn()
 		atomic.StoreInt32(&c.errAfter, int32(len(sc.Errors())))
 		if err != nil {
 			atomic.StoreInt32(&c.status, 3)
@@ -551,7 +608,7 @@ func runSeq(next func(w *world, step int) *sop, maxSteps int) seqResult {
 			st := atomic.LoadInt32(&c.status)
 			if c.first && !c.reported && (st == 2 || st == 3) {
 				c.reported = true
-				if n := w.outstanding(c.scope); n > 0 {
+				if n := w.outstanding(c.scope); n > 0 && !w.unsure {
 					res.Violations = append(res.Violations, fmt.Sprintf("Close of scope %d returned with %d outstanding tasks/children (step %d)", c.scope, n, step))
 				}
 			}
@@ -639,7 +696,7 @@ func (r seqResult) coqHist() string {
 func (r seqResult) coqObs() string {
 	items := make([]string, len(r.Obs))
 	for i, o := range r.Obs {
-		items[i] = o.coq()
+		items[i] = strings.TrimSuffix(strings.Repeat(o.coq()+"; ", r.Hist[i].delta()), "; ")
 	}
 	return coqList(items)
 }
@@ -667,7 +724,7 @@ func (r seqResult) desc() map[string]interface{} {
 func (r seqResult) key() string {
 	var sb strings.Builder
 	for _, p := range r.Hist {
-		fmt.Fprintf(&sb, "%s%d%v%d%d%v;", p.K, p.S, p.Iso, p.Ev, p.Fail, p.Es)
+		fmt.Fprintf(&sb, "%s%d%v%d%d%v%d%d;", p.K, p.S, p.Iso, p.Ev, p.Fail, p.Es, p.Via, p.N)
 	}
 	return sb.String()
 }
@@ -687,6 +744,7 @@ type genCfg struct {
 	misuse    bool // allow operations whose expected outcome is a panic
 	maxOps    int
 	drain     bool // finish all tasks and close every scope at the end
+	wide      bool // C11 audit: children through gio.NewChildIOContext, AddTasks(n) with n up to 3
 }
 
 func (w *world) returned(s int) bool {
@@ -707,6 +765,7 @@ func genNext(rng *RNG, g genCfg, o *Out) func(w *world, step int) *sop {
 	draining := false
 	lid := 0
 	newLid := func() int { lid++; return lid }
+	var ons []sop // wide: the listeners registered so far by the random part
 	return func(w *world, step int) *sop {
 		if setup && len(pending) == 0 {
 			setup = false
@@ -750,7 +809,11 @@ func genNext(rng *RNG, g genCfg, o *Out) func(w *world, step int) *sop {
 			switch k := rng.Intn(100); {
 			case k < 14:
 				if n < 8 && w.scopeDepth[s] < 3 && !w.returned(s) {
-					return &sop{K: "newchild", S: s, Iso: rng.Chance(40)}
+					p := &sop{K: "newchild", S: s, Iso: rng.Chance(40)}
+					if g.wide && rng.Chance(30) {
+						p.Via = 1
+					}
+					return p
 				}
 			case k < 26:
 				if g.listeners {
@@ -760,10 +823,25 @@ func genNext(rng *RNG, g genCfg, o *Out) func(w *world, step int) *sop {
 						if rng.Chance(25) {
 							f = 100 + l
 						}
-						return &sop{K: "on", S: s, Ev: rng.Intn(11), Lid: l, Fail: f}
+						p := &sop{K: "on", S: s, Ev: rng.Intn(11), Lid: l, Fail: f}
+						if g.wide {
+							// several listeners on ONE event of ONE scope (a failing one in the middle) are
+							// what "registration order" and "the first error stops the trigger" are about
+							if len(ons) > 0 && rng.Chance(40) {
+								q := ons[rng.Intn(len(ons))]
+								if !w.returned(q.S) {
+									p.S, p.Ev = q.S, q.Ev
+								}
+							}
+							ons = append(ons, *p)
+						}
+						return p
 					}
 				}
 			case k < 36:
+				if g.wide && rng.Chance(25) {
+					return &sop{K: "add", S: s, N: 2 + rng.Intn(2)}
+				}
 				return &sop{K: "add", S: s}
 			case k < 48:
 				if w.tasks[s] > 0 {
@@ -805,7 +883,7 @@ func genNext(rng *RNG, g genCfg, o *Out) func(w *world, step int) *sop {
 			case k < 94:
 				return &sop{K: "err", S: s}
 			default:
-				if w.outstanding(s) == 0 && w.tasks[s] == 0 {
+				if w.outstanding(s) == 0 && w.tasks[s] == 0 && !w.unsure {
 					return &sop{K: "wait", S: s}
 				}
 			}
